@@ -83,6 +83,10 @@ class C19(SCheck):
                 kernel["fiemap_split"] = r.choice([4096, 8192])
             if r.random() < 0.4:
                 kernel["fiemap_round_eof"] = True
+            if r.random() < 0.4:
+                kernel["fiemap_flagbits"] = r.choice(gen.FIEMAP_FLAGBITS)
+            if r.random() < 0.2:
+                kernel["fiemap_past_eof"] = r.choice([4096, 65536])
         elif c < 0.85:
             kernel["fiemap"] = "EOPNOTSUPP"
         # seeded extent lists for merge_extents
